@@ -34,6 +34,10 @@ def dgram_cases(rng, q):
                     ops += ["aread %d 10" % buf, "poll", "arrive 1 %d %d" % (size, rng.randrange(256)), "poll"]
                 ops += ["arrive 2 3 7", "aread 16 11", "poll", "write 1 %d %d" % (min(size, 1372), rng.randrange(256))]
                 cases.append(("case mode=uni", ops))
+    # bursts consumed by chained reads with a fresh buffer per read, across the dispatch limit
+    for n in ((5, 40, 70) if q else (5, 31, 32, 33, 34, 40, 70, 130)):
+        ops = ["arrive %d %d %d" % (1 + k % 3, 8 + k % 5, rng.randrange(256)) for k in range(n)] + ["chain %d 16" % n]
+        cases.append(("case mode=uni", ops))
     for _ in range(20 if q else 300):
         ops = []
         pending = False
